@@ -706,7 +706,7 @@ for _p in ["C07", "C15"]:
     PROPS[_p]["manifest"]["text"] += " TRACE: recorded event lists of real concurrent runs are decided by an acceptor proved exact for the interleaving model (a list is rejected iff no interleaving of the model shows it); what acceptance implies is proved in the property file."
     PROPS[_p]["manifest"]["technique"] += " + trace acceptance against the interleaving model (acceptor proved sound and complete)"
 PROPS["C07"]["required_theorems"] += ["Failsafe.Props.C07." + t for t in ["accepted_states_reachable", "final_sample_exclusive", "early_listener_impossible", "early_exceeded_impossible", "early_cancellation_impossible"]]
-PROPS["C15"]["required_theorems"] += ["Failsafe.Props.C15." + t for t in ["accepted_states_reachable", "seen_isDone_imp", "seen_closed_imp", "got_imp"]]
+PROPS["C15"]["required_theorems"] += ["Failsafe.Props.C15." + t for t in ["accepted_states_reachable", "seen_isDone_imp", "seen_closed_imp", "got_imp", "listener_event_of_ran", "isDone_true_after_listener"]]
 
 # C15's last clause names the hedge policy: the coordinating loop's cancellation check is one of the facts it rests on (round 9)
 PROPS["C15"]["facts"] = PROPS["C15"]["facts"] + ["bodies/hedgeexecutor:executor.Apply", "effects/hedgeexecutor:executor.Apply", "bodies/retryexecutor:executor.Apply"]
